@@ -182,6 +182,26 @@ def damage(text, specs):
             for l, nm in zip(g["lines"], names):
                 if nm == tgt:
                     drop.add(id(l))
+        elif how == "ca_only":
+            for l, nm in zip(g["lines"], names):
+                if nm != "CA":
+                    drop.add(id(l))
+        elif how == "drop_backbone":
+            for l, nm in zip(g["lines"], names):
+                if nm in ("N", "CA", "C", "O"):
+                    drop.add(id(l))
+        elif how.startswith("coord:"):
+            # overwrite the x coordinate field of every atom of the residue with a token
+            tok = how.split(":", 1)[1]
+            for l in g["lines"]:
+                drop.add(id(l))
+                add_after[id(l)] = l[:30] + tok.rjust(8)[:8] + l[38:]
+        elif how == "collapse":
+            # all atoms of the residue at one point
+            x, y, z = _xyz(g["lines"][0])
+            for l in g["lines"]:
+                drop.add(id(l))
+                add_after[id(l)] = _set_xyz(l, x, y, z)
         elif how == "altloc":
             # two alternate locations for the first side-chain atom (or CA)
             tgt = next((l for l, nm in zip(g["lines"], names) if nm not in BACKBONE), g["lines"][0])
